@@ -1,6 +1,7 @@
 package main
 
 import (
+	"regexp"
 	"encoding/json"
 	"fmt"
 	"sort"
@@ -138,6 +139,18 @@ func c12Eval(w *Worker, c *GCase) {
 		// the names printed must be exactly the unproductive nonterminals
 		got := parseInfLoop(res.Stdout)
 		if got == nil {
+			// another wording than today's: it is enough that every unproductive nonterminal is named somewhere in the diagnostic output
+			all := res.Stdout + " " + res.Diag()
+			named := true
+			for _, u := range unprod {
+				if !regexp.MustCompile(`(^|[^A-Za-z0-9_])` + regexp.QuoteMeta(u) + `([^A-Za-z0-9_]|$)`).MatchString(all) {
+					named = false
+				}
+			}
+			if named {
+				w.Count("unproductive_named_in_other_wording", 1)
+				return
+			}
 			w.Violate("C12|unproductive-not-named|"+key, fmt.Sprintf("grammar [%s]: refused (%s) without naming the unproductive nonterminals %v", key, res.Diag(), unprod), c, detail)
 			return
 		}
